@@ -26,6 +26,9 @@ func racePassSub(scenarios func(tier string) []scenario) func(args []string) int
 		iters, _ := strconv.Atoi(args[1])
 		bad := 0
 		for _, sc := range scenarios(tier) {
+			for _, o := range sc.warm {
+				o.run(NewPlenc(sc.cfg))
+			}
 			want := make([][]string, len(sc.threads))
 			for i, ops := range sc.threads {
 				want[i] = seqSpecCfg(sc.cfg, ops)
